@@ -774,8 +774,8 @@ func runRules(prop, tier, bound string, assumptions ...string) {
 	smp := &evid.Samples{N: 10}
 	var total seqx.Stats
 	spec := rulesSpec(prop)(tier, "rules")
-	st := seqx.Explore(run, spec, tier, smp)
-	seqx.Merge(run, "rules", st, &total)
+	// both map iteration orders; quick: C01 only (C05 quick already runs into its deadline with one order)
+	st := seqx.ExploreOrders(run, spec, tier, smp, &total, tier == "thorough" || prop == "C01")
 	seqx.Finish(run, total, smp, fmt.Sprintf(bound, spec.MaxDepth, st.DepthDone))
 	for _, a := range assumptions {
 		run.Assumption(a)
